@@ -3983,7 +3983,10 @@ impl Font {
             .map(|(rank, name)| (name, rank))
             .collect::<HashMap<_, _>>();
 
-        glyphs_with_smart_components.sort_by_key(|g| depth_ranked.get(&g.name).unwrap());
+        // glyphs on a component cycle (or with a missing component) have no rank;
+        // do them last, IR rejects the former and drops the latter's bad reference
+        glyphs_with_smart_components
+            .sort_by_key(|g| depth_ranked.get(&g.name).copied().unwrap_or(usize::MAX));
 
         // convert the smart components to normal outlines, per-glyph
         for mut glyph in glyphs_with_smart_components {
@@ -6166,6 +6169,24 @@ etc;
                 Rect::new(500., 200., 550., 400.),
                 Rect::new(500., 0., 550., 100.),
             ]
+        );
+    }
+
+    #[test]
+    fn smart_component_cycle_no_crashy() {
+        // a smart component that includes itself has no component depth; it
+        // is for IR to reject the cycle, we just shouldn't panic.
+        let path = glyphs3_dir().join("SmartComponents.glyphs");
+        let source = std::fs::read_to_string(path).unwrap();
+        let (head, tail) = source.split_once("glyphname = _part.shoulder;").unwrap();
+        let tail = tail.replace("shapes = (\n", "shapes = (\n{ref = _part.shoulder;},\n");
+        let source = format!("{head}glyphname = _part.shoulder;{tail}");
+        let font = Font::load_from_string(&source).unwrap();
+        let glyph = font.glyphs.get("_part.shoulder").unwrap();
+        assert!(
+            glyph.layers[0]
+                .components()
+                .any(|c| c.name == "_part.shoulder")
         );
     }
 
